@@ -516,6 +516,33 @@ int main(int argc, char** argv) {
     for (uint32_t g = 1; g <= n; ++g) { uint64_t pc = rt_guard_pc(g); f.write((const char*)&pc, 8); }
     return 0;
   }
+  if (cmd == "seqruns" && argc >= 6) {
+    // sim seqruns <prop> <seed> <cfg> <r1> ... <rn>: executes the cases r1..rn one after another in this process, exactly as a
+    // worker would, and prints the digest of the last one (process-history probe: it must equal the digest of rn run alone)
+    std::string prop = argv[2]; uint64_t seed = strtoull(argv[3], nullptr, 10); std::string cfg = argv[4];
+    uint64_t dig = 0;
+    for (int k = 5; k < argc; ++k) {
+      uint64_t r = strtoull(argv[k], nullptr, 10); Plan p = gen_plan(prop, seed, r, cfg); g_cur_run = r;
+      Stats one; Violation v; run_case(p, one, v, true); dig = one.digest;
+    }
+    printf("DIGEST %016" PRIx64 "\n", dig);
+    return 0;
+  }
+  if (cmd == "seq" && argc >= 3) {
+    // sim seq <file>: several plans separated by a line '---next'; all are executed in this process, the digest of the last is printed
+    std::string all = read_file(argv[2]); uint64_t dig = 0; size_t pos = 0;
+    for (;;) {
+      size_t e = all.find("\n---next\n", pos);
+      std::string one_text = all.substr(pos, e == std::string::npos ? std::string::npos : e + 1 - pos);
+      Plan p; std::string err;
+      if (!plan_from_text(one_text, p, err)) { fprintf(stderr, "bad plan in sequence: %s\n", err.c_str()); return 2; }
+      g_cur_run = p.run; Stats one; Violation v; run_case(p, one, v, true); dig = one.digest;
+      if (e == std::string::npos) break;
+      pos = e + 9;
+    }
+    printf("DIGEST %016" PRIx64 "\n", dig);
+    return 0;
+  }
   if (cmd == "exec" && argc >= 3) {
     bool enumerate = false; const char* detail = nullptr; const char* outplan = nullptr;
     for (int k = 3; k < argc; ++k) { if (!strcmp(argv[k], "--enumerate")) enumerate = true; else if (!strcmp(argv[k], "--detail") && k + 1 < argc) detail = argv[++k]; else if (!strcmp(argv[k], "--out") && k + 1 < argc) outplan = argv[++k]; }
